@@ -23,7 +23,9 @@ func C05() int {
 		t2 := g.Reassign(items[i].Tree, gen.ReassignOpts{Mode: gen.CrossEqual})
 		items = append(items, Item{Case: items[i].Case, Tree: t2, Raw: t2.Bytes(jt.Plain)})
 	}
-	reps := []*string{nil, sp(""), sp(`q"uo'te`), sp(`back\slash\\`), sp("Ωmega ñ 漢"), sp("😀"), sp(strings.Repeat("R", 1024)), sp("$lead"), sp("line\nbreak\ttab"), sp("100%s %d%%")}
+	reps := []*string{nil, sp(""), sp(`q"uo'te`), sp(`back\slash\\`), sp("Ωmega ñ 漢"), sp("😀"), sp(strings.Repeat("R", 1024)), sp("$lead"), sp("line\nbreak\ttab"), sp("100%s %d%%"),
+		// characters JSON spells differently from Go / C string syntax: C0 controls without a short escape, DEL, C1, tag and private-use characters, separators, BOM
+		sp("\x1b[31mRED\x1b[0m"), sp("bel\x07vt\x0bff\x0cdel\x7fc1\u0085"), sp("tag\U000E0001pua\U000F0000\u2028\u2029\ufeff\ufffe"), sp("&lt;b&gt; <b> & \\u0026 \\n")}
 	var fsets []Flags
 	for i, r := range reps {
 		fsets = append(fsets, Flags{R: r, N: i%2 == 0, B: i%3 != 1, I: i%4 == 0, W: i%5 == 3})
